@@ -104,11 +104,70 @@ async fn ws(_rq: RequestContext<()>, upgrade: WebsocketUpgrade) -> WebsocketEndp
         Ok(())
     })
 }
+/// An echo channel that writes every buffer back as three slices with write_vectored (a handler is
+/// free to do that); partial writes are handled the way the AsyncWrite contract requires.
+async fn wsv(_rq: RequestContext<()>, upgrade: WebsocketUpgrade) -> WebsocketEndpointResult {
+    upgrade.handle(move |conn: WebsocketConnection| async move {
+        use tokio::io::{AsyncReadExt, AsyncWriteExt};
+        let mut io = conn.into_inner();
+        let mut buf = vec![0u8; 48 * 1024];
+        loop {
+            let n = match io.read(&mut buf).await {
+                Ok(0) | Err(_) => break,
+                Ok(n) => n,
+            };
+            let data = &buf[..n];
+            let mut done = 0usize;
+            while done < n {
+                let rest = &data[done..];
+                let a = rest.len() / 3;
+                let b = 2 * rest.len() / 3;
+                let slices = [std::io::IoSlice::new(&rest[..a]), std::io::IoSlice::new(&rest[a..b]), std::io::IoSlice::new(&rest[b..])];
+                match io.write_vectored(&slices).await {
+                    Ok(0) | Err(_) => return Ok(()),
+                    Ok(w) => done += w,
+                }
+            }
+        }
+        Ok(())
+    })
+}
+const PUSH_TOTAL: usize = 24 << 20;
+fn push_byte(i: usize) -> u8 {
+    ((i / 1000) % 251) as u8 ^ (i % 7) as u8
+}
+/// A channel that pushes PUSH_TOTAL pattern bytes to the client with multi-slice vectored writes.
+async fn wspush(_rq: RequestContext<()>, upgrade: WebsocketUpgrade) -> WebsocketEndpointResult {
+    upgrade.handle(move |conn: WebsocketConnection| async move {
+        use tokio::io::AsyncWriteExt;
+        let mut io = conn.into_inner();
+        let mut sent = 0usize;
+        let batch = 32 * 1000;
+        while sent < PUSH_TOTAL {
+            let end = (sent + batch).min(PUSH_TOTAL);
+            let data: Vec<u8> = (sent..end).map(push_byte).collect();
+            let mut done = 0usize;
+            while done < data.len() {
+                let rest = &data[done..];
+                let slices: Vec<std::io::IoSlice> = rest.chunks(1000).map(std::io::IoSlice::new).collect();
+                match io.write_vectored(&slices).await {
+                    Ok(0) | Err(_) => return Ok(()),
+                    Ok(w) => done += w,
+                }
+            }
+            sent = end;
+        }
+        let _ = io.flush().await;
+        Ok(())
+    })
+}
 fn api() -> ApiDescription<()> {
     let mut api = ApiDescription::new();
     let ct = "application/json";
     api.register(ApiEndpoint::new("health".into(), health, http::Method::GET, ct, "/health", ApiEndpointVersions::All)).unwrap();
     api.register(ApiEndpoint::new("ws".into(), ws, http::Method::GET, ct, "/ws", ApiEndpointVersions::All)).unwrap();
+    api.register(ApiEndpoint::new("wsv".into(), wsv, http::Method::GET, ct, "/wsv", ApiEndpointVersions::All)).unwrap();
+    api.register(ApiEndpoint::new("wspush".into(), wspush, http::Method::GET, ct, "/wspush", ApiEndpointVersions::All)).unwrap();
     api
 }
 
@@ -373,7 +432,104 @@ fn main() {
         let big = c < 9 && u < 6 && v < 2 && (i % 97 == 0 || (c, u, v) == (0, 0, 0));
         handshake(&ctx, srvs[i % srvs.len()].addr, c, u, v, k, big, &cn, &samples);
     });
+    // ---- back-pressure: a slow reader, so the server's writes (plain and vectored) block part-way
+    let mut backpressure = vec![];
+    for (path, total) in [("/ws", 3usize << 20), ("/wsv", 3 << 20), ("/wsv", 700_000), ("/ws", 700_000)] {
+        let srv = &srvs[0];
+        let req = format!("GET {path} HTTP/1.1\r\nhost: h\r\nconnection: Upgrade\r\nupgrade: websocket\r\nsec-websocket-version: 13\r\nsec-websocket-key: dGhlIHNhbXBsZSBub25jZQ==\r\n\r\n");
+        let Ok(mut c) = Conn::connect(srv.addr) else { continue };
+        let _ = c.send(req.as_bytes());
+        let ReadOutcome::Resp(resp) = c.read_response(false, T) else { continue };
+        if resp.status != 101 {
+            continue;
+        }
+        let payload: Vec<u8> = (0..total).map(|i| ((i / 7) ^ (i >> 11)) as u8).collect();
+        let mut wr = c.stream.try_clone().expect("clone");
+        let p2 = payload.clone();
+        let writer = std::thread::spawn(move || {
+            let _ = wr.write_all(&p2);
+        });
+        // do not read for a while: the echo fills the socket buffers and the server's writes stall
+        std::thread::sleep(Duration::from_millis(400));
+        let mut got = std::mem::take(&mut c.buf);
+        let deadline = Instant::now() + Duration::from_secs(20);
+        let mut tmp = vec![0u8; 1 << 16];
+        let mut reads = 0u64;
+        while got.len() < total && Instant::now() < deadline {
+            c.stream.set_read_timeout(Some(Duration::from_secs(3))).ok();
+            match c.stream.read(&mut tmp) {
+                Ok(0) | Err(_) => break,
+                Ok(n) => {
+                    got.extend_from_slice(&tmp[..n]);
+                    reads += 1;
+                    if reads % 16 == 0 {
+                        std::thread::sleep(Duration::from_millis(3)); // keep the reader slow
+                    }
+                }
+            }
+        }
+        let _ = writer.join();
+        cn.echoed_bytes.fetch_add(got.len() as u64, Ordering::Relaxed);
+        let ok = got == payload;
+        if !ok {
+            let first_diff = got.iter().zip(payload.iter()).position(|(a, b)| a != b).unwrap_or(got.len().min(payload.len()));
+            ctx.report(Violation {
+                sig: json!({"kind":"channel_bytes_modified","under_backpressure": true, "vectored_writes": path == "/wsv"}),
+                case: json!({"kind":"handshake","backpressure": {"path": path, "bytes": total}}),
+                expected: json!({"echo_of_bytes": total}),
+                observed: json!({"received": got.len(), "first_difference_at": first_diff}),
+            });
+        }
+        backpressure.push(json!({"path": path, "bytes": total, "intact": ok}));
+        c.reset_on_close();
+    }
+
+    // server push with vectored writes into a reader that starts late and stays slow
+    {
+        let srv = &srvs[1];
+        let req = "GET /wspush HTTP/1.1\r\nhost: h\r\nconnection: Upgrade\r\nupgrade: websocket\r\nsec-websocket-version: 13\r\nsec-websocket-key: dGhlIHNhbXBsZSBub25jZQ==\r\n\r\n";
+        if let Ok(mut c) = Conn::connect(srv.addr) {
+            let _ = c.send(req.as_bytes());
+            if let ReadOutcome::Resp(resp) = c.read_response(false, T) {
+                if resp.status == 101 {
+                    std::thread::sleep(Duration::from_millis(500));
+                    let mut got = std::mem::take(&mut c.buf);
+                    let deadline = Instant::now() + Duration::from_secs(30);
+                    let mut tmp = vec![0u8; 1 << 16];
+                    let mut reads = 0u64;
+                    while got.len() < PUSH_TOTAL + 1000 && Instant::now() < deadline {
+                        c.stream.set_read_timeout(Some(Duration::from_secs(2))).ok();
+                        match c.stream.read(&mut tmp) {
+                            Ok(0) | Err(_) => break,
+                            Ok(n) => {
+                                got.extend_from_slice(&tmp[..n]);
+                                reads += 1;
+                                if reads % 64 == 0 {
+                                    std::thread::sleep(Duration::from_millis(2));
+                                }
+                            }
+                        }
+                    }
+                    cn.echoed_bytes.fetch_add(got.len() as u64, Ordering::Relaxed);
+                    let first_diff = got.iter().enumerate().position(|(i, b)| *b != push_byte(i));
+                    let ok = got.len() == PUSH_TOTAL && first_diff.is_none();
+                    if !ok {
+                        ctx.report(Violation {
+                            sig: json!({"kind":"channel_bytes_modified","under_backpressure": true, "vectored_writes": true, "direction": "server_to_client"}),
+                            case: json!({"kind":"handshake","backpressure": {"path": "/wspush", "bytes": PUSH_TOTAL}}),
+                            expected: json!({"bytes": PUSH_TOTAL, "pattern": "push_byte(i)"}),
+                            observed: json!({"received": got.len(), "first_difference_at": first_diff}),
+                        });
+                    }
+                    backpressure.push(json!({"path": "/wspush", "bytes": PUSH_TOTAL, "intact": ok}));
+                }
+            }
+            c.reset_on_close();
+        }
+    }
+
     let cov = json!({
+        "backpressure_echo": backpressure,
         "evaluations": cn.handshakes.load(Ordering::Relaxed),
         "distinct_nontrivial": cn.accepted.load(Ordering::Relaxed),
         "rule": "handshakes = Connection (13 spellings incl. lists, two header lines, HT after comma, look-alikes, absent) x Upgrade (9) x Sec-WebSocket-Version (6) x key (8: RFC sample, 3 other valid keys, 1-byte, 200-byte, obs-text, absent); quick = every combination that deviates from the canonical handshake in at most 2 dimensions, thorough = the full product (5616). Each on its own connection. Reference predicate: Connection list contains 'upgrade', Upgrade list contains 'websocket' (all lines joined, comma-split, OWS-trimmed, case-insensitive), version exactly 13, key present. Accepted: 101 + Sec-WebSocket-Accept == own SHA-1/base64 digest; then every byte value and (for a fixed sub-grid) payloads of 1..200000 bytes come back unmodified through a raw echo channel. Refused: 400-499 and the connection is not an echo. distinct_nontrivial = handshakes that were upgraded and payload-checked.",
